@@ -207,6 +207,11 @@ class Translator:
                 a = {"op": k, "special": reqs} if isinstance(reqs, str) else {"op": k, "reqs": reqs}
                 if k == "wait":
                     a["mode"] = "indep" if self.indep else "coll"
+            elif k == "reopen":
+                a = {"op": "close", "obs": ["disk"]}
+                out.append(a)
+                a = {"op": "open", "path": "a.nc", "omode": ["WRITE"]}
+                self.indep = False
             elif k == "attach":
                 a = {"op": "buffer_attach", "size": c["size"]}
             elif k == "detach":
